@@ -609,7 +609,10 @@ package main
 // {set sub}: a request naming the requester (or nobody) acts on the requester's own subscription, any other on the
 // target's; whoever is neither is not touched.
 //@ func (t *Topic) replySetSub(sess *Session, pkt *ClientComMessage, asChan bool) (err error)
-//@   ensures [C13] answered: outTotal > old(outTotal)
+// (split like thisUserSub's clause: the recorded finding - a member accepting a pending ownership transfer while the
+// store fails half-way gets no reply - shows here too, and must not hide any other unanswered path)
+//@   ensures [C13] answered: !(err != nil && old((types.ParseUserId(pkt.AsUser) in t.perUser) && !t.perUser[types.ParseUserId(pkt.AsUser)].deleted && hasO(t.perUser[types.ParseUserId(pkt.AsUser)].modeGiven) && !hasO(t.perUser[types.ParseUserId(pkt.AsUser)].modeWant))) ==> outTotal > old(outTotal)
+//@   ensures [C13] failed_transfer_is_answered: err != nil && old((types.ParseUserId(pkt.AsUser) in t.perUser) && !t.perUser[types.ParseUserId(pkt.AsUser)].deleted && hasO(t.perUser[types.ParseUserId(pkt.AsUser)].modeGiven) && !hasO(t.perUser[types.ParseUserId(pkt.AsUser)].modeWant)) ==> outTotal > old(outTotal)
 //@   requires t != nil && sess != nil && pkt != nil && pkt.Set != nil && pkt.Set.Sub != nil
 //@   requires [C07] p2p_wf: t.cat == types.TopicCatP2P ==> (t.accessAuth & ^types.ModeCP2P) == 0 && (t.accessAnon & ^types.ModeCP2P) == 0 && (forall u types.Uid :: (u in t.perUser) ==> (t.perUser[u].modeGiven & ^types.ModeCP2P) == 0 && (t.perUser[u].modeGiven & types.ModeApprove) != 0)
 //@   requires [C06] owner_cached: (t.owner in t.perUser) ==> !t.perUser[t.owner].deleted && !t.perUser[t.owner].isChan && t.cat == types.TopicCatGrp
